@@ -12,6 +12,17 @@
 //     channel) and after every receive / at the top of every select case;
 //  3. `go f(args)` -> arguments evaluated first, then vsched.Go(func(){ f(tmp) });
 //  4. read-modify-write splitting of `x.f = append(x.f, ..)`, `x.f++`, `x.f op= v`;
+//     4b. every select with two or more communication cases is made deterministic:
+//     the channel operands are evaluated once, the cases are polled one at a
+//     time starting at the case vsched.SelectStart names, and only when none is
+//     ready does the goroutine block in the original select; the bodies run in a
+//     switch afterwards (Go itself picks at random among ready cases);
+//     4c. `for k, v := range x.f` where f is a struct field declared as a map with an
+//     ordered key type iterates the keys in sorted order (vsched.SortedKeys), so
+//     that Go's random map iteration order is not a hidden source of divergence;
+//     4d. time.AfterFunc -> vsched.AfterFunc: the callback goroutine gets its label when
+//     the timer is armed, so that callbacks firing at the same instant are told
+//     apart reproducibly;
 //  5. client/rpc_client.go only: *net.TCPConn -> net.Conn, net.DialTimeout -> vsched.Dial;
 //  6. serf/snapshot.go only: os.OpenFile/Remove/Rename and *os.File -> simfs.
 package main
@@ -33,8 +44,8 @@ import (
 )
 
 var (
-	repo = flag.String("repo", "/repo", "repository root")
-	out  = flag.String("out", "", "output directory for overlay files and overlay.json")
+	repo  = flag.String("repo", "/repo", "repository root")
+	out   = flag.String("out", "", "output directory for overlay files and overlay.json")
 	mlDir = flag.String("memberlist", "", "private writable copy of github.com/hashicorp/memberlist to rewrite in place (mutexes only)")
 )
 
@@ -55,6 +66,7 @@ func main() {
 		fatal("%v", err)
 	}
 	overlay := map[string]string{}
+	collectMapFields()
 	for _, p := range pkgs {
 		dir := filepath.Join(*repo, p)
 		ents, err := os.ReadDir(dir)
@@ -184,6 +196,17 @@ func rewrite(path, pkg, name string, src []byte) ([]byte, bool, error) {
 		}
 	}
 	r.replaceMutexTypes()
+	ast.Inspect(f, func(n ast.Node) bool {
+		if call, ok := n.(*ast.CallExpr); ok {
+			if se, ok := call.Fun.(*ast.SelectorExpr); ok && se.Sel.Name == "AfterFunc" {
+				if id, ok := se.X.(*ast.Ident); ok && id.Name == "time" {
+					se.X = ast.NewIdent("vsched")
+					r.useV, r.changed = true, true
+				}
+			}
+		}
+		return true
+	})
 	for _, d := range f.Decls {
 		if fd, ok := d.(*ast.FuncDecl); ok && fd.Body != nil {
 			r.block(fd.Body)
@@ -422,6 +445,10 @@ func (r *rw) stmts(list []ast.Stmt) []ast.Stmt {
 			r.block(s.Body)
 		case *ast.RangeStmt:
 			r.block(s.Body)
+			if blk := r.sortedRange(s); blk != nil {
+				out = append(out, blk)
+				continue
+			}
 			// after each element received from a channel we cannot tell statically
 			// whether X is a channel; a yield at the top of the body is harmless
 		case *ast.SwitchStmt:
@@ -437,6 +464,12 @@ func (r *rw) stmts(list []ast.Stmt) []ast.Stmt {
 				}
 			}
 		case *ast.LabeledStmt:
+			if sel, ok := s.Stmt.(*ast.SelectStmt); ok && commCases(sel) >= 2 {
+				fatal("%s: labelled select with several cases is not supported", r.site(s))
+			}
+			if rs, ok := s.Stmt.(*ast.RangeStmt); ok {
+				noSort[rs] = true // the label must stay on the loop
+			}
 			inner := r.stmts([]ast.Stmt{s.Stmt})
 			if len(inner) == 1 {
 				s.Stmt = inner[0]
@@ -473,6 +506,12 @@ func (r *rw) stmts(list []ast.Stmt) []ast.Stmt {
 		before, recv := headerHas(st)
 		if before {
 			out = append(out, r.yieldStmt(st))
+		}
+		if sel, ok := st.(*ast.SelectStmt); ok {
+			if det := r.detSelect(sel); det != nil {
+				out = append(out, det)
+				continue
+			}
 		}
 		out = append(out, st)
 		if recv {
@@ -736,4 +775,250 @@ func (r *rw) patchSnapshot() error {
 	// *simfs.File: File is a concrete struct type in simfs, keep the star.
 	r.useFS, r.changed = true, true
 	return nil
+}
+
+func commCases(s *ast.SelectStmt) int {
+	n := 0
+	for _, c := range s.Body.List {
+		if c.(*ast.CommClause).Comm != nil {
+			n++
+		}
+	}
+	return n
+}
+
+// detSelect rewrites a select with two or more communication cases (see 4b).
+// The clause bodies have been instrumented already.
+func (r *rw) detSelect(s *ast.SelectStmt) ast.Stmt {
+	n := commCases(s)
+	if n < 2 {
+		return nil
+	}
+	r.tmpN++
+	pfx := fmt.Sprintf("_vs%d_", r.tmpN)
+	es := func(e ast.Expr) string { return exprString(r.fset, e) }
+	var hoist, polls, block, bodies strings.Builder
+	type clause struct {
+		body []ast.Stmt
+	}
+	var cls []clause
+	idx := 0
+	hasDefault := false
+	var defBody []ast.Stmt
+	for _, c := range s.Body.List {
+		cc := c.(*ast.CommClause)
+		if cc.Comm == nil {
+			hasDefault, defBody = true, cc.Body
+			continue
+		}
+		i := idx
+		idx++
+		var comm, bind string
+		switch st := cc.Comm.(type) {
+		case *ast.SendStmt:
+			fmt.Fprintf(&hoist, "%sc%d := %s\n%ss%d := vsched.Conv(%sc%d, %s)\n", pfx, i, es(st.Chan), pfx, i, pfx, i, es(st.Value))
+			comm = fmt.Sprintf("%sc%d <- %ss%d", pfx, i, pfx, i)
+		case *ast.ExprStmt:
+			u, ok := unparen(st.X).(*ast.UnaryExpr)
+			if !ok || u.Op != token.ARROW {
+				fatal("%s: unexpected select case", r.site(cc))
+			}
+			fmt.Fprintf(&hoist, "%sc%d := %s\n", pfx, i, es(u.X))
+			comm = fmt.Sprintf("<-%sc%d", pfx, i)
+		case *ast.AssignStmt:
+			if len(st.Rhs) != 1 || len(st.Lhs) < 1 || len(st.Lhs) > 2 {
+				fatal("%s: unexpected select case", r.site(cc))
+			}
+			u, ok := unparen(st.Rhs[0]).(*ast.UnaryExpr)
+			if !ok || u.Op != token.ARROW {
+				fatal("%s: unexpected select case", r.site(cc))
+			}
+			fmt.Fprintf(&hoist, "%sc%d := %s\n", pfx, i, es(u.X))
+			fmt.Fprintf(&hoist, "%sv%d, %sok%d := vsched.RecvZero(%sc%d)\n_, _ = %sv%d, %sok%d\n", pfx, i, pfx, i, pfx, i, pfx, i, pfx, i)
+			if len(st.Lhs) == 2 {
+				comm = fmt.Sprintf("%sv%d, %sok%d = <-%sc%d", pfx, i, pfx, i, pfx, i)
+				bind = fmt.Sprintf("%s, %s %s %sv%d, %sok%d", es(st.Lhs[0]), es(st.Lhs[1]), st.Tok, pfx, i, pfx, i)
+			} else {
+				comm = fmt.Sprintf("%sv%d = <-%sc%d", pfx, i, pfx, i)
+				bind = fmt.Sprintf("%s %s %sv%d", es(st.Lhs[0]), st.Tok, pfx, i)
+			}
+		default:
+			fatal("%s: unexpected select case", r.site(cc))
+		}
+		fmt.Fprintf(&polls, "case %d:\nselect {\ncase %s:\n%ssel = %d\ndefault:\n}\n", i, comm, pfx, i)
+		fmt.Fprintf(&block, "case %s:\n%ssel = %d\n", comm, pfx, i)
+		fmt.Fprintf(&bodies, "case %d:\n%s\n_vsBODY(%d)\n", i, bind, i)
+		cls = append(cls, clause{cc.Body})
+	}
+	if hasDefault {
+		fmt.Fprintf(&block, "default:\n%ssel = %d\n", pfx, n)
+		fmt.Fprintf(&bodies, "case %d:\n_vsBODY(%d)\n", n, n)
+		cls = append(cls, clause{defBody})
+	}
+	src := fmt.Sprintf(`package p
+func _() {
+{
+%s%ssel := -1
+if %sst := vsched.SelectStart(%d, %s); %sst >= 0 {
+for %si := 0; %si < %d && %ssel < 0; %si++ {
+switch (%sst + %si) %%%% %d {
+%s}
+}
+}
+if %ssel < 0 {
+select {
+%s}
+}
+switch %ssel {
+%sdefault:
+panic("vsched: select without a chosen case")
+}
+}
+}
+`, hoist.String(), pfx, pfx, n, strconv.Quote(r.site(s)), pfx, pfx, pfx, n, pfx, pfx, pfx, pfx, n, polls.String(), pfx, block.String(), pfx, bodies.String())
+	src = strings.ReplaceAll(src, "%%", "%")
+	f, err := parser.ParseFile(r.fset, fmt.Sprintf("_vsel%d_%s", r.tmpN, filepath.Base(r.rel)), src, 0)
+	if err != nil {
+		fatal("%s: generated select does not parse: %v\n%s", r.site(s), err, src)
+	}
+	blk := f.Decls[0].(*ast.FuncDecl).Body.List[0].(*ast.BlockStmt)
+	sw := blk.List[len(blk.List)-1].(*ast.SwitchStmt)
+	for _, c := range sw.Body.List {
+		cc := c.(*ast.CaseClause)
+		var nb []ast.Stmt
+		for _, st := range cc.Body {
+			if ex, ok := st.(*ast.ExprStmt); ok {
+				if call, ok := ex.X.(*ast.CallExpr); ok {
+					if id, ok := call.Fun.(*ast.Ident); ok && id.Name == "_vsBODY" {
+						k, _ := strconv.Atoi(call.Args[0].(*ast.BasicLit).Value)
+						nb = append(nb, cls[k].body...)
+						continue
+					}
+				}
+			}
+			nb = append(nb, st)
+		}
+		cc.Body = nb
+	}
+	r.useV, r.changed = true, true
+	return blk
+}
+
+func unparen(e ast.Expr) ast.Expr {
+	for {
+		p, ok := e.(*ast.ParenExpr)
+		if !ok {
+			return e
+		}
+		e = p.X
+	}
+}
+
+// ---- 4c: sorted iteration over map-typed struct fields -------------------------
+
+var orderedKey = map[string]bool{"string": true, "int": true, "int32": true, "int64": true, "uint32": true, "uint64": true, "LamportTime": true}
+var mapFields = map[string]bool{}    // field name -> declared somewhere as map[ordered]...
+var nonMapFields = map[string]bool{} // field name -> declared somewhere as something else
+var noSort = map[*ast.RangeStmt]bool{}
+
+func collectMapFields() {
+	for _, p := range pkgs {
+		dir := filepath.Join(*repo, p)
+		ents, _ := os.ReadDir(dir)
+		for _, e := range ents {
+			name := e.Name()
+			if e.IsDir() || !strings.HasSuffix(name, ".go") || strings.HasSuffix(name, "_test.go") {
+				continue
+			}
+			f, err := parser.ParseFile(token.NewFileSet(), filepath.Join(dir, name), nil, 0)
+			if err != nil {
+				fatal("%v", err)
+			}
+			ast.Inspect(f, func(n ast.Node) bool {
+				st, ok := n.(*ast.StructType)
+				if !ok {
+					return true
+				}
+				for _, fld := range st.Fields.List {
+					isMap := false
+					if mt, ok := fld.Type.(*ast.MapType); ok {
+						if id, ok := mt.Key.(*ast.Ident); ok && orderedKey[id.Name] {
+							isMap = true
+						}
+					}
+					for _, nm := range fld.Names {
+						if isMap {
+							mapFields[nm.Name] = true
+						} else {
+							nonMapFields[nm.Name] = true
+						}
+					}
+				}
+				return true
+			})
+		}
+	}
+}
+
+func (r *rw) sortedRange(s *ast.RangeStmt) ast.Stmt {
+	se, ok := s.X.(*ast.SelectorExpr)
+	if !ok || noSort[s] || !mapFields[se.Sel.Name] || nonMapFields[se.Sel.Name] {
+		return nil
+	}
+	if s.Tok != token.DEFINE && (s.Key != nil || s.Value != nil) {
+		return nil
+	}
+	blank := func(e ast.Expr) bool {
+		if e == nil {
+			return true
+		}
+		id, ok := e.(*ast.Ident)
+		return ok && id.Name == "_"
+	}
+	r.tmpN++
+	m, k, okv := fmt.Sprintf("_vm%d", r.tmpN), fmt.Sprintf("_vk%d", r.tmpN), fmt.Sprintf("_vok%d", r.tmpN)
+	val := "_"
+	if !blank(s.Value) {
+		val = exprString(r.fset, s.Value)
+	}
+	bind := ""
+	if !blank(s.Key) {
+		bind = fmt.Sprintf("%s := %s", exprString(r.fset, s.Key), k)
+	}
+	src := fmt.Sprintf(`package p
+func _() {
+{
+%s := %s
+for _, %s := range vsched.SortedKeys(%s) {
+%s, %s := %s[%s]
+if !%s {
+continue
+}
+%s
+_vsBODY()
+}
+}
+}
+`, m, exprString(r.fset, s.X), k, m, val, okv, m, k, okv, bind)
+	f, err := parser.ParseFile(r.fset, fmt.Sprintf("_vrange%d_%s", r.tmpN, filepath.Base(r.rel)), src, 0)
+	if err != nil {
+		fatal("%s: generated range does not parse: %v\n%s", r.site(s), err, src)
+	}
+	blk := f.Decls[0].(*ast.FuncDecl).Body.List[0].(*ast.BlockStmt)
+	loop := blk.List[1].(*ast.RangeStmt)
+	var nb []ast.Stmt
+	for _, st := range loop.Body.List {
+		if ex, ok := st.(*ast.ExprStmt); ok {
+			if call, ok := ex.X.(*ast.CallExpr); ok {
+				if id, ok := call.Fun.(*ast.Ident); ok && id.Name == "_vsBODY" {
+					nb = append(nb, s.Body.List...)
+					continue
+				}
+			}
+		}
+		nb = append(nb, st)
+	}
+	loop.Body.List = nb
+	r.useV, r.changed = true, true
+	return blk
 }
